@@ -341,11 +341,14 @@ impl RoutePattern {
             } = right;
 
             for (left, right) in segs_left.iter().zip(segs_right.iter()) {
-                if !left.parameter
-                    && !right.parameter
-                    && left.segment_str(pat_left.as_str()) != right.segment_str(pat_right.as_str())
-                {
-                    return false;
+                if !left.parameter && !right.parameter {
+                    // Literal segments are matched against routes after percent-decoding so they
+                    // must be compared in the same way here.
+                    let left_decoded = percent_decode_str(left.segment_str(pat_left.as_str()));
+                    let right_decoded = percent_decode_str(right.segment_str(pat_right.as_str()));
+                    if !left_decoded.eq(right_decoded) {
+                        return false;
+                    }
                 }
             }
             true
